@@ -22,6 +22,20 @@ def q_from_yaw(yaw):
     return (math.cos(yaw / 2.0), 0.0, 0.0, math.sin(yaw / 2.0))
 
 
+def q_from_ypr(yaw, pitch=0.0, roll=0.0):
+    """Rz(yaw) * Ry(pitch) * Rx(roll)."""
+    qz = (math.cos(yaw / 2.0), 0.0, 0.0, math.sin(yaw / 2.0))
+    qy = (math.cos(pitch / 2.0), 0.0, math.sin(pitch / 2.0), 0.0)
+    qx = (math.cos(roll / 2.0), math.sin(roll / 2.0), 0.0, 0.0)
+    return q_mul(q_mul(qz, qy), qx)
+
+
+def q_matrix(q):
+    """3x3 rotation matrix (list of rows) of a unit quaternion."""
+    cols = [q_rotate(q, e) for e in ((1.0, 0.0, 0.0), (0.0, 1.0, 0.0), (0.0, 0.0, 1.0))]
+    return [[cols[c][r] for c in range(3)] for r in range(3)]
+
+
 def q_mul(a, b):
     aw, ax, ay, az = a
     bw, bx, by, bz = b
